@@ -26,6 +26,15 @@ conditions that are visible in the shape of the pool allocator:
      and every later mutation extends both with the same list; the
      transformation appends the dummies from ``to_hoist`` and the actual arguments
      from the successor's ``hoist_variables`` unfiltered and in order.
+ R6  no bound of an array section is tested for truth in the stack / pool
+     transformations (``loki/transformations/temporaries``): ``d.lower or
+     <declared bound>`` takes an explicit bound 0 -- a falsy ``IntLiteral`` -- for an
+     absent one and maps the section onto more of the stack than it covers.
+ R7  every access to a stack-backed temporary is relative to that temporary's
+     position: in ``DirectIdxStackTransformation._map_temporary_array`` the tuple
+     from which the stack subscript is summed contains the position variable of
+     the temporary whatever the shape of the simplified offset (evaluated for a
+     sum and for a single term).
 Not decided: behavioural equivalence of hoisted / pool-allocated code, the size
 arithmetic of each array (dimension products, ``C_SIZEOF``), and the other
 stack transformations (raw stack, Fortran-pointer and direct-index variants).
@@ -176,9 +185,22 @@ def run(ctx):
     sizes = None
     for l in ast.walk(ds.node):
         if isinstance(l, ast.For) and 'CallStatement' in ast.unparse(l.iter):
+            cvar = l.target.id if isinstance(l.target, ast.Name) else None
             aug = [a for a in ast.walk(l) if isinstance(a, ast.AugAssign) and isinstance(a.target, ast.Name)]
-            if aug:
-                sizes = aug[0].target.id
+            app = [c for c in ast.walk(l) if isinstance(c, ast.Call) and isinstance(c.func, ast.Attribute) and c.func.attr in ('append', 'extend', 'add')
+                   and isinstance(c.func.value, ast.Name)]
+            keyed = [a for a in ast.walk(l) if isinstance(a, ast.Assign) and isinstance(a.targets[0], ast.Subscript)
+                     and isinstance(a.targets[0].value, ast.Name) and 'stack_size' in ast.unparse(a.value).lower()]
+            if keyed and not aug and not app:
+                k = keyed[0]
+                sizes = k.targets[0].value.id
+                ctx.violation('R3', '_determine_stack_size:one-entry-per-callee', f'{ds.module.relpath}:{k.lineno}',
+                              f'`{ast.unparse(k)}` stores the requirement of a call site under a key (`{ast.unparse(k.targets[0].slice)}`) that does '
+                              f'not distinguish call sites: a later call to the same routine overwrites an earlier one, and only the last call\'s '
+                              f'actual arguments reach the MAX -- a larger earlier call overruns its stack')
+                continue
+            if aug or app:
+                sizes = aug[0].target.id if aug else app[0].func.value.id
                 early = [n for n in ast.walk(l) if isinstance(n, (ast.Break, ast.Return))]
                 (ctx.judge('R3', 'every successor call contributes') if not early else
                  ctx.violation('R3', '_determine_stack_size:early-exit', f'{ds.module.relpath}:{early[0].lineno}',
@@ -326,9 +348,79 @@ def run_r5(ctx):
             ctx.violation('R5', f'HoistVariablesTransformation.{name}:reordered', f'{HV}:{bad[0].lineno}',
                           f'`{ast.unparse(bad[0])}` re-orders the hoisted variables on the caller side')
     ctx.floor('R5', 'caller-side argument constructions', n, 4)
+    run_r67(ctx)
+
+
+def run_r67(ctx):
+    from sa.miniev import ev_ext, Unknown
+    import types
+    m = ctx.model
+    ctx.rule('R6', 'loki/transformations/temporaries: no truth test of a range bound (.lower/.upper/.start/.stop)')
+    ctx.rule('R7', 'DirectIdxStackTransformation._map_temporary_array: the summed stack subscript contains the position variable of the '
+                   'temporary for every shape of the offset')
+    nfun = 0
+    hits = []
+    for mod in m.all_repo_modules(packages=('loki/transformations/temporaries',)):
+        for fn_ in [n for n in ast.walk(mod.tree) if isinstance(n, (ast.FunctionDef, ast.AsyncFunctionDef))]:
+            nfun += 1
+            for o_, t_ in X.truthy_bound_uses(fn_):
+                if not any(h[2] is o_ for h in hits):
+                    hits.append((mod, fn_, o_, t_))
+    ctx.floor('R6', 'functions of the temporaries package', nfun, 60)
+    if hits:
+        for mod, fn_, o_, t_ in hits:
+            ctx.violation('R6', f'{fn_.name}:bound-truthiness', f'{mod.relpath}:{o_.lineno}',
+                          f'`{ast.unparse(t_)[:90]}` tests `{ast.unparse(o_)}` for truth: IntLiteral(0) is falsy, so an explicit bound 0 is '
+                          f'replaced by the declared bound and the section is mapped onto the wrong part of the stack')
+    else:
+        ctx.judge('R6', 'no truthiness test of section bounds', facts={'functions': nfun})
+    D = m.get_class('loki/transformations/temporaries/stack_allocator.py', 'DirectIdxStackTransformation')
+    f = D.function('_map_temporary_array')
+    if f is None:
+        raise AnalysisError('DirectIdxStackTransformation._map_temporary_array vanished')
+    posn = X.names_assigned_from(f.node, 'temp_array_map[', '[2]')
+    sums = [a for a in ast.walk(f.node) if isinstance(a, ast.Assign) and isinstance(a.value, ast.Call) and X.call_name_of(a.value) == 'Sum'
+            and a.value.args and any(isinstance(n, ast.Name) and n.id in posn for n in ast.walk(a.value.args[0]))]
+    if not posn or len(sums) < 2:
+        raise AnalysisError('_map_temporary_array: the sums building the stack subscript from the position variable were not found')
+
+    class _Sum:
+        def __init__(self, children):
+            self.children = tuple(children)
+    POS = 'POSITION'
+    for a in sums:
+        arg = a.value.args[0]
+        offs = sorted({n.id for n in ast.walk(arg) if isinstance(n, ast.Name)} - set(posn) - {'Sum', 'isinstance'})
+        for shape, val in (('a sum', _Sum(('x', 'y'))), ('a single term', 'x')):
+            env = {p_: POS for p_ in posn}
+            env.update({o: val for o in offs})
+            env['Sum'] = _Sum
+            env['isinstance'] = isinstance
+            try:
+                got = ev_ext(arg, env)
+            except Unknown as u:
+                raise AnalysisError(f'_map_temporary_array: `{ast.unparse(arg)}` uses `{u}`, outside the evaluated fragment')
+            inst = f'_map_temporary_array:{a.targets[0].id if isinstance(a.targets[0], ast.Name) else "?"}:offset is {shape}'
+            if isinstance(got, tuple) and POS in got:
+                ctx.judge('R7', inst)
+            else:
+                ctx.violation('R7', f'DirectIdxStackTransformation._map_temporary_array:{ast.unparse(a.targets[0])}:base-offset-dropped',
+                              f'{f.module.relpath}:{a.lineno}',
+                              f'`{ast.unparse(a)}`: when the simplified offset is {shape} the summed terms are {got!r} -- the position of the '
+                              f'temporary (`{posn[0]}`) is missing, the access goes to STACK(<offset>) and all such temporaries share the '
+                              f'beginning of the stack (a conditional expression binds weaker than `+`)', instance=inst)
 
 
 MUTANTS = [
+    Mutant('section-bound-by-truthiness', 'loki/transformations/temporaries/stack_allocator.py',
+           "                        d_lower = d.lower if d.lower is not None else s_lower\n", "                        d_lower = d.lower or s_lower\n",
+           expect=('R6', 'bound-truthiness')),
+    Mutant('raw-stack-bound-by-truthiness', 'loki/transformations/temporaries/raw_stack_allocator.py',
+           "                        if d.lower is None:\n                            d_lower = s_lower\n                        else:\n                            d_lower = d.lower\n",
+           "                        d_lower = d.lower or s_lower\n", expect=('R6', 'bound-truthiness')),
+    Mutant('base-offset-dropped', 'loki/transformations/temporaries/stack_allocator.py',
+           "            lower = Sum((int_var,) + (offset.children if isinstance(offset, Sum) else (offset,)))",
+           "            lower = Sum((int_var,) + offset.children if isinstance(offset, Sum) else (offset,))", expect=('R7', 'base-offset-dropped')),
     Mutant('hoist-names-filtered', HV,
            "            item.trafo_data[self._key][\"hoist_variables\"] = [var.clone(name=f'{routine.name}_{var.name}')\n                                                             for var in variables]",
            "            item.trafo_data[self._key][\"hoist_variables\"] = [var.clone(name=f'{routine.name}_{var.name}')\n                                                             for var in variables if var.shape]",
@@ -347,6 +439,11 @@ MUTANTS = [
            "            allocation, stack_size = self._create_stack_allocation(stack_ptr, stack_end, ptr_var, arr,\n                    stack_size, stack_storage)\n",
            "            allocation, new_size = self._create_stack_allocation(stack_ptr, stack_end, ptr_var, arr,\n                    stack_size, stack_storage)\n            if len(arr.shape) > 1:\n                stack_size = new_size\n",
            expect=('R2', 'accumulation')),
+    Mutant('one-size-per-callee', FILE, "        stack_sizes = []\n        for call in FindNodes(CallStatement).visit(routine.body):",
+           "        stack_sizes = {}\n        for call in FindNodes(CallStatement).visit(routine.body):",
+           also=[(FILE, "                stack_sizes += [successor_stack_size]\n", "                stack_sizes[str(call.name).lower()] = successor_stack_size\n"),
+                 (FILE, "            d for s in stack_sizes\n", "            d for s in stack_sizes.values()\n")],
+           expect=('R3', 'one-entry-per-callee')),
     Mutant('local-size-not-added', FILE, "            stack_sizes = [simplify(Sum((local_stack_size, s))) for s in stack_sizes]\n",
            "            stack_sizes = [local_stack_size] + stack_sizes\n", expect=('R3', 'local-plus-callee')),
     Mutant('min-over-call-sites', FILE, "stack_size = InlineCall(function=Variable(name='MAX'), parameters=as_tuple(stack_sizes), kw_parameters=())",
